@@ -4,6 +4,7 @@
 -/
 import Proofs.RoundTripFull
 import Proofs.TokCore
+import Proofs.Marks
 namespace PM.RoundTrip
 open PM PM.Dom PM.FromDom PM.DomWalk
 
@@ -113,5 +114,342 @@ theorem forest_toDom (R : RParser) (D : ToDom) (univ : List Mark) : ∀ (F : Lis
       obtain ⟨name, attrs, hk, hh, hd⟩ := tree_toDom R D univ T p hok.1 hch'.1.1 (fun n hn => hl n (List.mem_append_left _ hn)) htl
       rw [forestHtml, hh, toDomList, ih, hd, forestDom]
 end
+
+/-! ### the canonical DOM with marks -/
+
+mutual
+def domOfM (R : RParser) (D : ToDom) : Node → DNode
+  | .text s _ => .text (some s)
+  | .leaf t a _ =>
+    match D.node t a with
+    | .el name sattrs [] => elemDom R name sattrs []
+    | _ => .other
+  | .elem t a _ kids =>
+    match D.node t a with
+    | .el name sattrs [.hole] =>
+      elemDom R name sattrs (if kids.all Node.isLeaf then forestDom R D (build kids [] []) else domOfListM R D kids)
+    | .el name sattrs [.el name2 sattrs2 [.hole]] => elemDom R name sattrs [elemDom R name2 sattrs2 (domOfListM R D kids)]
+    | _ => .other
+def domOfListM (R : RParser) (D : ToDom) : List Node → List DNode
+  | [] => []
+  | n :: ns => domOfM R D n :: domOfListM R D ns
+end
+
+theorem domOfM_shape (R : RParser) (D : ToDom) (opts : Opts) (pt : TypeId) (k : Node) (h : nodeOk R D opts pt k = true) :
+    (domOfM R D k).isBr = (prevTag R D k == "br") ∧
+    (listTags.contains (prevTag R D k) = false → lkind (domOfM R D k) ≠ .list) := by
+  cases k with
+  | text s m => simp [domOfM, DNode.isBr, prevTag, lkind]
+  | leaf t a m =>
+    rw [nodeOk] at h
+    simp only [Bool.and_eq_true] at h
+    cases hl : leafRule R D t a with
+    | none => rw [hl] at h; simp at h
+    | some tag =>
+      obtain ⟨name, sattrs, pw, hd, _, ht⟩ := leafRule_cases R D t a tag hl
+      simp only [domOfM, hd, elemDom, DNode.isBr, prevTag, hl, Option.getD_some, ht, true_and]
+      exact fun h' => lkind_elem _ _ _ _ h'
+  | elem t a m kids =>
+    rw [nodeOk] at h
+    simp only [Bool.and_eq_true] at h
+    cases he : elemRule R D t a with
+    | none => rw [he] at h; simp at h
+    | some p =>
+      obtain ⟨tag, pw⟩ := p
+      rcases elemRule_cases R D t a tag pw he with ⟨name, sattrs, hd, _, _, ht⟩ | ⟨name, sattrs, name2, sattrs2, hd, _, _, _, _, ht⟩
+      · simp only [domOfM, hd, elemDom, DNode.isBr, prevTag, he, Option.map_some, Option.getD_some, ht, true_and]
+        exact fun h' => lkind_elem _ _ _ _ h'
+      · simp only [domOfM, hd, elemDom, DNode.isBr, prevTag, he, Option.map_some, Option.getD_some, ht, true_and]
+        exact fun h' => lkind_elem _ _ _ _ h'
+
+theorem prevOk_nextM (R : RParser) (D : ToDom) (opts : Opts) (pt : TypeId) (k : Node) (c : List Node)
+    (h : nodeOk R D opts pt k = true) : PrevOk (some (k, prevTag R D k)) (c ++ [k]) (domOfM R D k).isBr := by
+  refine ⟨by simp, ?_⟩
+  intro hb
+  rw [(domOfM_shape R D opts pt k h).1] at hb
+  refine ⟨k, prevTag R D k, rfl, by simpa using hb, ?_⟩
+  cases k with
+  | text s m => simp [prevTag] at hb
+  | leaf => rfl
+  | elem => rfl
+
+
+theorem mem_domOfListM (R : RParser) (D : ToDom) : ∀ (kids : List Node) (k : DNode), k ∈ domOfListM R D kids →
+    ∃ n, n ∈ kids ∧ k = domOfM R D n
+  | [], _, h => by simp [domOfListM] at h
+  | n :: ns, k, h => by
+    rw [domOfListM] at h
+    rcases List.mem_cons.1 h with rfl | h
+    · exact ⟨n, List.mem_cons_self, rfl⟩
+    · obtain ⟨n', hn, he⟩ := mem_domOfListM R D ns k h
+      exact ⟨n', List.mem_cons_of_mem _ hn, he⟩
+
+
+theorem leafHyp_of (R : RParser) (tc : TypeId) : ∀ (kids : List Node), kids.all Node.isLeaf = true →
+    R.P.S.checkKids kids = true → kids.all (fun k => (R.P.S.nodeType tc).allowsMarks k.marks) = true →
+    ∀ n ∈ kids, LeafHyp R tc n
+  | [], _, _, _, _, hn => by cases hn
+  | k :: ks, hfl, hck, hal, n, hn => by
+    simp only [List.all_cons, Bool.and_eq_true] at hfl hal
+    rw [Schema.checkKids] at hck
+    simp only [Bool.and_eq_true] at hck
+    rcases List.mem_cons.1 hn with rfl | hn
+    · refine ⟨hfl.1, ?_, ?_⟩
+      · apply (canonicalMarks_iff_canonP R.P.S _).1
+        cases n with
+        | text s m => simpa [Schema.checkNode, Node.marks] using hck.1
+        | leaf t a m => rw [Schema.checkNode] at hck; simp only [Bool.and_eq_true] at hck; exact hck.1.1
+        | elem t a m kk => simp [Node.isLeaf] at hfl
+      · intro m hm
+        have := hal.1
+        unfold NodeType.allowsMarks at this
+        rw [List.all_eq_true] at this
+        exact this m hm
+    · exact leafHyp_of R tc ks hfl.2 hck.2 hal.2 n hn
+
+mutual
+theorem walk_nodeM (R : RParser) (D : ToDom) : ∀ (k : Node) (w : WState) (base : List NodeCtx) (cx : NodeCtx) (ext : List NodeCtx)
+    (c : List Node) (t : TypeId) (q q' : Nat) (opts : Opts) (prev : Option (Node × String)) (prevBr : Bool) (ptag : String),
+    Inv R.P.S w base cx ext c → Plain R.P.S cx t q → (cx.pending = [] ∨ k.isLeaf = true) → cx.opts = opts →
+    (match k with
+     | .text s _ => textOk opts prev s = true
+     | _ => True) →
+    nodeOk R D opts t k = true → k.marks = [] → R.P.S.checkNode k = true → k.norm = true →
+    (R.P.S.dfa t).matchType q (R.P.S.tyOf k) = some q' → PrevOk prev c prevBr →
+    ∃ w' cx' ext', addDom R.P ptag prevBr (domOfM R D k) w = .ok w' ∧ Inv R.P.S w' base cx' ext' (c ++ [k]) ∧
+      Plain R.P.S cx' t q' ∧ Rel cx cx' ∧ (k.isLeaf = true → ext' = [])
+  | .text s m, w, base, cx, ext, c, t, q, q', opts, prev, prevBr, ptag, hi, hp, _, ho, htx, hok, hnm, _, _, hm, hprev => by
+    have hm0 : m = [] := hnm
+    subst hm0
+    rw [nodeOk] at hok
+    simp only [Bool.and_eq_true] at hok
+    subst ho
+    obtain ⟨w', hadd, hi', _⟩ := addTextNode_normal R.P w base cx ext c t q q' s prev (some ptag) prevBr hi hp hok.1 htx
+      (fun h1 h2 h3 => by
+        subst h3
+        have hc := settles_nil_inv _ _ _ hi.settles
+        rw [hc] at hprev
+        exact hdrop_of cx prev s prevBr htx hprev h1 h2) hm
+    exact ⟨w', _, [], by rw [domOfM, addDom]; exact hadd, hi', hp.step _ _, rfl, fun _ => rfl⟩
+  | .leaf tl a m, w, base, cx, ext, c, t, q, q', opts, prev, prevBr, ptag, hi, hp, _, ho, _, hok, hnm, _, _, hm, _ => by
+    have hm0 : m = [] := hnm
+    subst hm0
+    rw [nodeOk] at hok
+    simp only [Bool.and_eq_true, Bool.not_eq_true'] at hok
+    obtain ⟨⟨⟨⟨hlr, hl⟩, hnt⟩, _⟩, _⟩ := hok
+    cases hlr' : leafRule R D tl a with
+    | none => rw [hlr'] at hlr; cases hlr
+    | some tag =>
+      obtain ⟨name, sattrs, pw, hd, hnr, _⟩ := leafRule_cases R D tl a tag hlr'
+      obtain ⟨hu, r, ra, hf, hs, hr, hca, _⟩ := nodeRule_spec R tl a name sattrs pw hnr
+      have hig : ignoreTags.contains (lowerName name) = false := by
+        unfold tagUsable at hu; simp only [Bool.and_eq_true, Bool.not_eq_true'] at hu; exact hu.1
+      obtain ⟨w', hadd, hi'⟩ := addDom_leaf R w base cx ext c t q q' tl ra a (lowerName name) (renderedAttrs sattrs) r [] ptag prevBr
+        hi hp hig hf hs hr hl hnt hm hca
+      refine ⟨w', _, [], ?_, hi', hp.step _ _, rfl, fun _ => rfl⟩
+      simp only [domOfM, hd, elemDom]
+      exact hadd
+  | .elem tc a m kids, w, base, cx, ext, c, t, q, q', opts, prev, prevBr, ptag, hi, hp, hpe, ho, _, hok, hnm, hck, hnorm, hm, _ => by
+    have hpe0 : cx.pending = [] := by
+      rcases hpe with h | h
+      · exact h
+      · simp [Node.isLeaf] at h
+    have hm0 : m = [] := hnm
+    subst hm0
+    rw [nodeOk] at hok
+    simp only [Bool.and_eq_true, Bool.not_eq_true'] at hok
+    obtain ⟨⟨hnl, _⟩, hrest⟩ := hok
+    cases her : elemRule R D tc a with
+    | none => rw [her] at hrest; cases hrest
+    | some p =>
+      obtain ⟨tag, pw⟩ := p
+      rw [her] at hrest
+      simp only [Bool.and_eq_true, Bool.or_eq_true, Bool.not_eq_true'] at hrest
+      obtain ⟨⟨⟨⟨⟨hko, hlo⟩, hflat⟩, hlist⟩, hmfl⟩, hlfl⟩ := hrest
+      rw [Schema.checkNode] at hck
+      simp only [Bool.and_eq_true] at hck
+      obtain ⟨⟨hvc, _⟩, hckk⟩ := hck
+      unfold Schema.validContent at hvc
+      simp only [Bool.and_eq_true] at hvc
+      obtain ⟨qe, hrun, hve⟩ := accepts_run _ _ hvc.1
+      rw [Node.norm] at hnorm
+      have hfn : fnorm kids = true := hnorm
+      simp only [Bool.and_eq_true] at hnorm
+      have hN := afterEnter_inv R.P w base cx ext c q' tc
+      rcases elemRule_cases R D tc a tag pw her with ⟨name, sattrs, hd, _, hnr, ht⟩ |
+          ⟨name, sattrs, name2, sattrs2, hd, _, hlt, htr, hnr, ht⟩
+      · obtain ⟨hu, r, ra, hf, hs, hr, hca, hpw⟩ := nodeRule_spec R tc a name sattrs pw hnr
+        have hig : ignoreTags.contains (lowerName name) = false := by
+          unfold tagUsable at hu; simp only [Bool.and_eq_true, Bool.not_eq_true'] at hu; exact hu.1
+        have hNN := hN ra r.preserveWs (.enter tc ra r.preserveWs) hi
+        have hopts : (newCtx R.P tc ra r.preserveWs cx.opts w.st.fresh).opts = wsOptionsFor (R.P.wsPre tc) pw opts := by
+          rw [hpw, ho]; rfl
+        by_cases hfl : kids.all Node.isLeaf = true
+        · have hbt := build_top kids
+          have hleaf := leafHyp_of R tc kids hfl hckk hvc.2
+          have hnkF : normKids R.P (lowerName name) (forestDom R D (build kids [] [])) = forestDom R D (build kids [] []) := by
+            apply normKids_noList
+            intro hlc k hk
+            rw [← ht] at hlc
+            have hke : kids = [] := by
+              simp only [hlc, hfl, List.isEmpty_iff] at hlfl
+              rcases hlfl with (h | h) | h
+              · cases h
+              · exact h
+              · cases h
+            subst hke
+            simp [build, closeF, forestDom] at hk
+          obtain ⟨w3, ext3, hadd, hi3⟩ := addDom_node R w base cx ext c t q q' tc ra a (lowerName name) (renderedAttrs sattrs) r
+            (forestDom R D (build kids [] [])) kids qe ptag prevBr hi hp hpe0 hig hf hs hr hnl hm hca hnkF
+            (fun w1 hi1 => by
+              have hs0 : MarkSt (newCtx R.P tc ra r.preserveWs cx.opts w.st.fresh) tc 0 [] [] := ⟨rfl, hNN.2.1.mtch, rfl, rfl, rfl, rfl⟩
+              obtain ⟨w2, N', hall, hi2, hs2, hst2⟩ := walk_forest R D (build kids [] []) w1 _ _ [] tc 0 qe _ none false
+                (lowerName name) [] [] [] hi1 hs0 hopts rfl (fun m hm => by cases hm) hbt.1 (by rw [hbt.2]; exact hko)
+                (by rw [hbt.2]; exact hleaf) (by rw [hbt.2]; exact hrun) prevOk_init
+              have hs2' : MarkSt N' tc qe [] [] := by simpa using hs2
+              rw [hbt.2] at hi2
+              refine ⟨w2, N', [], hall, by simpa using hi2, ?_, hst2⟩
+              exact ⟨hs2'.ty, hs2'.mtch, hs2'.solid, (by rw [hs2'.pending]; intro m hm; cases hm), (by simpa using hs2'.active),
+                (by rw [hst2.marks]; rfl), (by rw [hst2.opts]; exact hNN.2.1.openLeft)⟩)
+            hve (by rw [hpw, ho]; exact hlo) hfn
+          refine ⟨w3, _, ext3, ?_, hi3, hp.step _ _, rfl, fun h => by simp [Node.isLeaf] at h⟩
+          simp only [domOfM, hd, elemDom, hfl, if_true]
+          exact hadd
+        · have hdm : kids.all (fun k => k.marks.isEmpty) = true := by
+            rcases hmfl with h | h
+            · exact absurd h hfl
+            · exact h
+          have hnk : normKids R.P (lowerName name) (domOfListM R D kids) = domOfListM R D kids := by
+            apply normKids_noList
+            intro hlc k hk
+            rw [← ht] at hlc
+            rcases hlist with h | h
+            · rw [h] at hlc; cases hlc
+            · rw [List.all_eq_true] at h
+              obtain ⟨n, hn, rfl⟩ := mem_domOfListM R D kids k hk
+              have hn1 := h n hn
+              simp only [Bool.not_eq_true'] at hn1
+              exact (domOfM_shape R D _ tc n (nodeOk_of_kidsOk R D _ tc _ kids hko n hn)).2 hn1
+          obtain ⟨w3, ext3, hadd, hi3⟩ := addDom_node R w base cx ext c t q q' tc ra a (lowerName name) (renderedAttrs sattrs) r
+            (domOfListM R D kids) kids qe ptag prevBr hi hp hpe0 hig hf hs hr hnl hm hca hnk
+            (fun w1 hi1 => by
+              obtain ⟨w2, N', ext', hall, hi2, hp2, hrel, _⟩ := walk_kidsM R D kids w1 _ _ [] [] tc 0 qe _ none false (lowerName name)
+                hi1 hNN.2.1 (.inl hNN.2.2) hopts hko hdm hckk hnorm.1 hrun prevOk_init
+              exact ⟨w2, N', ext', hall, by simpa using hi2, hp2, hrel.stable⟩)
+            hve (by rw [hpw, ho]; exact hlo) hfn
+          refine ⟨w3, _, ext3, ?_, hi3, hp.step _ _, rfl, fun h => by simp [Node.isLeaf] at h⟩
+          simp only [domOfM, hd, elemDom, hfl, Bool.false_eq_true, if_false]
+          exact hadd
+      · obtain ⟨hu, r, ra, hf, hs, hr, hca, hpw⟩ := nodeRule_spec R tc a name sattrs pw hnr
+        have hig : ignoreTags.contains (lowerName name) = false := by
+          unfold tagUsable at hu; simp only [Bool.and_eq_true, Bool.not_eq_true'] at hu; exact hu.1
+        have hNN := hN ra r.preserveWs (.enter tc ra r.preserveWs) hi
+        have hopts : (newCtx R.P tc ra r.preserveWs cx.opts w.st.fresh).opts = wsOptionsFor (R.P.wsPre tc) pw opts := by
+          rw [hpw, ho]; rfl
+        obtain ⟨hig2, _, hbr2, hlt2, htp⟩ := transparent_cases R tc name2 sattrs2 htr
+        have hflat' : kids.all Node.isLeaf = true := by
+          rcases hflat with h | h
+          · simp [isWrapper, hd] at h
+          · exact h.1
+        have hdm : kids.all (fun k => k.marks.isEmpty) = true := by
+          rcases hflat with h | h
+          · simp [isWrapper, hd] at h
+          · exact h.2
+        have hnk : normKids R.P (lowerName name) [elemDom R name2 sattrs2 (domOfListM R D kids)] =
+            [elemDom R name2 sattrs2 (domOfListM R D kids)] :=
+          normKids_noList _ _ _ (fun hlc => by rw [← ht, hlt] at hlc; cases hlc)
+        obtain ⟨w3, ext3, hadd, hi3⟩ := addDom_node R w base cx ext c t q q' tc ra a (lowerName name) (renderedAttrs sattrs) r
+          [elemDom R name2 sattrs2 (domOfListM R D kids)] kids qe ptag prevBr hi hp hpe0 hig hf hs hr hnl hm hca hnk
+          (fun w1 hi1 => by
+            have key : ∃ w2 N', addDom R.P (lowerName name) false (elemDom R name2 sattrs2 (domOfListM R D kids)) w1 = .ok w2 ∧
+                Inv R.P.S w2 (base ++ [{ cx with content := c, mtch := some q' }]) N' [] kids ∧ Plain R.P.S N' tc qe ∧ Rel (newCtx R.P tc ra r.preserveWs cx.opts w.st.fresh) N' := by
+              unfold elemDom
+              cases htp with
+              | none hc hb =>
+                obtain ⟨w3', hadd', N', h1, h2, h3⟩ := addDom_transparentA R w1 (base ++ [{ cx with content := c, mtch := some q' }]) (newCtx R.P tc ra r.preserveWs cx.opts w.st.fresh) [] (lowerName name2) (renderedAttrs sattrs2)
+                  (domOfListM R D kids) (lowerName name) false
+                  (fun w2 => ∃ N', Inv R.P.S w2 (base ++ [{ cx with content := c, mtch := some q' }]) N' [] kids ∧ Plain R.P.S N' tc qe ∧ Rel (newCtx R.P tc ra r.preserveWs cx.opts w.st.fresh) N')
+                  (fun w2 hq b l => by
+                    obtain ⟨N', h1, h2, h3⟩ := hq
+                    exact ⟨N', ⟨h1.nodes, h1.open_, h1.settles, h1.below, h1.fresh⟩, h2, h3⟩)
+                  hi1 hig2 hbr2 hlt2 hc hb
+                  (by
+                    obtain ⟨w2, N', ext', hall, hi2, hp2, hrel, hx⟩ := walk_kidsM R D kids w1 _ _ [] [] tc 0 qe _ none false
+                      (lowerName name2) hi1 hNN.2.1 (.inr hflat') hopts hko hdm hckk hnorm.1 hrun prevOk_init
+                    have := hx hflat' rfl
+                    subst this
+                    exact ⟨w2, hall, N', by simpa using hi2, hp2, hrel⟩)
+                exact ⟨w3', N', hadd', h1, h2, h3⟩
+              | mark r2 ra2 mt hf2 hs2 hrn hrm hal hcm =>
+                obtain ⟨w3', N3, hadd', h1, h2, h3⟩ := addDom_transparentB R w1 (base ++ [{ cx with content := c, mtch := some q' }]) (newCtx R.P tc ra r.preserveWs cx.opts w.st.fresh) [] kids tc 0 qe (lowerName name2)
+                  (renderedAttrs sattrs2) r2 ra2 mt (domOfListM R D kids) (lowerName name) false hi1 hNN.2.2 hig2 hlt2 hf2 hs2 hrn hrm hcm
+                  (fun w1' mk hty hi1' => by
+                    have hpB : Plain R.P.S { (newCtx R.P tc ra r.preserveWs cx.opts w.st.fresh) with pending := [mk] } tc 0 :=
+                      ⟨hNN.2.1.ty, hNN.2.1.mtch, hNN.2.1.solid,
+                        (fun m hm => by simp only [List.mem_singleton] at hm; subst hm; rw [hty]; exact hal),
+                        hNN.2.1.active, hNN.2.1.marks, hNN.2.1.openLeft⟩
+                    obtain ⟨w2, N', ext', hall, hi2, hp2, hrel, hx⟩ := walk_kidsM R D kids w1' _ _ [] [] tc 0 qe _ none false
+                      (lowerName name2) hi1' hpB (.inr hflat') hopts hko hdm hckk hnorm.1 hrun prevOk_init
+                    have := hx hflat' rfl
+                    subst this
+                    exact ⟨w2, N', hall, by simpa using hi2, hp2, hrel⟩)
+                exact ⟨w3', N3, hadd', h1, h2, h3⟩
+            obtain ⟨w2, N', hadd2, h1, h2, h3⟩ := key
+            refine ⟨w2, N', [], ?_, h1, h2, h3.stable⟩
+            rw [addAll]
+            simp only [hadd2]
+            rw [addAll])
+          hve (by rw [hpw, ho]; exact hlo) hfn
+        refine ⟨w3, _, ext3, ?_, hi3, hp.step _ _, rfl, fun h => by simp [Node.isLeaf] at h⟩
+        simp only [domOfM, hd, elemDom]
+        simp only [elemDom] at hadd
+        exact hadd
+theorem walk_kidsM (R : RParser) (D : ToDom) : ∀ (kids : List Node) (w : WState) (base : List NodeCtx) (cx : NodeCtx) (ext : List NodeCtx)
+    (c : List Node) (t : TypeId) (q qe : Nat) (opts : Opts) (prev : Option (Node × String)) (prevBr : Bool) (ptag : String),
+    Inv R.P.S w base cx ext c → Plain R.P.S cx t q → (cx.pending = [] ∨ kids.all Node.isLeaf = true) → cx.opts = opts →
+    kidsOk R D opts t prev kids = true → kids.all (fun k => k.marks.isEmpty) = true → R.P.S.checkKids kids = true → fnormKids kids = true →
+    (R.P.S.dfa t).run q (R.P.S.types kids) = some qe → PrevOk prev c prevBr →
+    ∃ w' cx' ext', addAll R.P ptag (domOfListM R D kids) prevBr w = .ok w' ∧ Inv R.P.S w' base cx' ext' (c ++ kids) ∧
+      Plain R.P.S cx' t qe ∧ Rel cx cx' ∧ (kids.all Node.isLeaf = true → ext = [] → ext' = [])
+  | [], w, base, cx, ext, c, t, q, qe, opts, prev, prevBr, ptag, hi, hp, _, _, _, _, _, _, hrun, _ => by
+    simp only [Schema.types, List.map_nil, Dfa.run, Option.some.injEq] at hrun
+    subst hrun
+    refine ⟨w, cx, ext, by rw [domOfListM, addAll], by simpa using hi, hp, Rel.refl cx, fun _ h => h⟩
+  | k :: ks, w, base, cx, ext, c, t, q, qe, opts, prev, prevBr, ptag, hi, hp, hpe, ho, hok, hnm, hck, hfn, hrun, hprev => by
+    unfold kidsOk at hok
+    simp only [Bool.and_eq_true] at hok
+    obtain ⟨⟨htx, hnk⟩, hoks⟩ := hok
+    simp only [List.all_cons, Bool.and_eq_true] at hnm
+    rw [Schema.checkKids] at hck
+    simp only [Bool.and_eq_true] at hck
+    rw [fnormKids] at hfn
+    simp only [Bool.and_eq_true] at hfn
+    simp only [Schema.types, List.map_cons, Dfa.run] at hrun
+    cases hmt : (R.P.S.dfa t).matchType q (R.P.S.tyOf k) with
+    | none => rw [hmt] at hrun; cases hrun
+    | some q1 =>
+      rw [hmt] at hrun
+      simp only at hrun
+      have hpe1 : cx.pending = [] ∨ k.isLeaf = true := by
+        rcases hpe with h | h
+        · exact .inl h
+        · simp only [List.all_cons, Bool.and_eq_true] at h; exact .inr h.1
+      obtain ⟨w1, cx1, ext1, hadd, hi1, hp1, hrel1, hx1⟩ := walk_nodeM R D k w base cx ext c t q q1 opts prev prevBr ptag hi hp hpe1 ho
+        (by cases k <;> first | exact htx | trivial) hnk (by simpa using hnm.1) hck.1 hfn.1 hmt hprev
+      have hpe2 : cx1.pending = [] ∨ ks.all Node.isLeaf = true := by
+        rcases hpe with h | h
+        · exact .inl (by rw [hrel1.pending]; exact h)
+        · simp only [List.all_cons, Bool.and_eq_true] at h; exact .inr h.2
+      obtain ⟨w2, cx2, ext2, hall, hi2, hp2, hrel2, hx2⟩ := walk_kidsM R D ks w1 base cx1 ext1 (c ++ [k]) t q1 qe opts
+        (some (k, prevTag R D k)) (domOfM R D k).isBr ptag hi1 hp1 hpe2 (by rw [hrel1.opts]; exact ho) hoks hnm.2 hck.2 hfn.2 hrun
+        (prevOk_nextM R D opts t k c hnk)
+      refine ⟨w2, cx2, ext2, ?_, by simpa using hi2, hp2, hrel1.trans hrel2, ?_⟩
+      · rw [domOfListM, addAll]
+        simp only [hadd, hall]
+      · intro h _
+        simp only [List.all_cons, Bool.and_eq_true] at h
+        exact hx2 h.2 (hx1 h.1)
+end
+
 
 end PM.RoundTrip
